@@ -98,7 +98,13 @@ def run(ck):
         ob("4:increment_version:sub_id-cleared", ok_sub, "sub_id is zero", "increment_version does not clear the sub-id", iv)
         ob("4:increment_version:version=wrapping_add(version,1)-unmasked-bits", ok_ver, "the new version is wrapping_add(version, 1) with no bit masked away: a bijection on the 16-bit generation, carries cannot leave the field", "the new generation is not wrapping_add(version,1) over the whole field (bits masked away or polluted by other fields): %s" % nt["version"][:3], iv)
     except (B.Undecided, KeyError, TypeError) as e:
-        ob("4:increment_version:shape", False, "", "increment_version left the decidable fragment (%s): the generation bump may carry into / depend on other fields" % e, iv)
+        # another arithmetic form ((v + 1) % 65536 on a wider type, ..): settle it by running the function on every
+        # 16-bit generation (engine/bits/concrete.py)
+        ex = exhaustive_increment_version(f, iv)
+        if ex is None:
+            ob("4:increment_version:shape", False, "", "increment_version left the decidable fragment (%s): the generation bump may carry into / depend on other fields" % e, iv)
+        else:
+            ob("4:increment_version:all-65536-generations", ex == "", "evaluated on every generation 0..65535 (and boundary ids / sub-ids): the result is (id, (version + 1) mod 2^16, 0)", "increment_version is wrong for some input: %s" % ex, iv)
     fs = ck.body("4", "TokenInner::forget_sub_id")
     try:
         it5 = B.Interp(fs, {1: sym_tok})
@@ -150,7 +156,13 @@ def run(ck):
         none_ret = isi.find_path([x for _, x in none], isi.return_blocks()) if none else [0]
         ok5 = bool(some) and ok_ret and ok_payload and arg_ok and none_ret is None
         why = "return-guard=%s payload=%s arg=%s overflow-edge-returns=%s" % (ok_ret, ok_payload, arg_ok, none_ret is not None)
-    ob("5:increment_sub_id:returns-only-checked_add-Some-and-within-mask,-else-panics", ok5, "the non-panicking return is reachable only when checked_add(sub_id, 1) is Some (and within the mask); its payload becomes the new sub_id, id/version unchanged; the overflow edge cannot return", "increment_sub_id can return after the sub-id overflowed / wraps silently (%s)" % why, isi)
+    if not ok5:
+        ex5 = exhaustive_increment_sub_id(f, isi)
+        if ex5 is not None:
+            ob("5:increment_sub_id:all-65536-sub-ids", ex5 == "", "evaluated on every sub-id 0..65535: returns (id, version, sub_id + 1) below 65535 and panics at 65535", "increment_sub_id is wrong for some input: %s" % ex5, isi)
+            ok5 = None
+    if ok5 is not None:
+      ob("5:increment_sub_id:returns-only-checked_add-Some-and-within-mask,-else-panics", ok5, "the non-panicking return is reachable only when checked_add(sub_id, 1) is Some (and within the mask); its payload becomes the new sub_id, id/version unchanged; the overflow edge cannot return", "increment_sub_id can return after the sub-id overflowed / wraps silently (%s)" % why, isi)
 
     # ---- 6: TokenFactory hands out the current token and advances (shared with C01.7) ----
     from props import C01
@@ -218,7 +230,146 @@ def token_equality_rules(ck, C):
             na = {e[1:] for r_, p_ in te.resolve(st["rv"]["a"]) for e in p_ if isinstance(e, str) and e.startswith(".")}
             nb = {e[1:] for r_, p_ in te.resolve(st["rv"]["b"]) for e in p_ if isinstance(e, str) and e.startswith(".")}
             cmp_fields |= (na & nb)
-    ck.verdict(bool(fields) and set(fields) <= cmp_fields, C, "T6-provenance", te, "TokenInner==compares-every-field", "TokenInner equality compares %s" % sorted(fields), "TokenInner equality does not compare all of %s (compared: %s): tokens of different generations / sub-sources are equal" % (sorted(fields), sorted(cmp_fields)), site=te.where())
+    if not (bool(fields) and set(fields) <= cmp_fields):
+        # a hand-written equality (`same_source_as(other) && sub_id == other.sub_id`): decide it by evaluation - equal
+        # tokens compare equal, and tokens that differ in exactly one field do not
+        sem = semantic_token_equality(f, te, fields)
+        if sem is not None:
+            ck.verdict(sem == "", C, "T6-provenance", te, "TokenInner==compares-every-field", "evaluated: equal tokens are equal, tokens differing in any single field are not", "TokenInner equality is wrong: %s" % sem, site=te.where())
+            cmp_fields = None
+    if cmp_fields is not None:
+      ck.verdict(bool(fields) and set(fields) <= cmp_fields, C, "T6-provenance", te, "TokenInner==compares-every-field", "TokenInner equality compares %s" % sorted(fields), "TokenInner equality does not compare all of %s (compared: %s): tokens of different generations / sub-sources are equal" % (sorted(fields), sorted(cmp_fields)), site=te.where())
     inner_eq = [c for c in re_.calls() if c.name == "eq" and (c.trait or "").endswith("PartialEq") and not re_.is_cleanup(c.bb) and len(c.args) == 2 and all(T.path_has(re_, a, ".inner") for a in c.args) and c.self_ty is not None and "TokenInner" in f.types[f.peel_refs(c.self_ty)]["s"]]
     ok = bool(inner_eq) and all(not c.dest["p"] and c.dest["l"] in T.ret_locals(re_) for c in inner_eq) and T.t2_all_exits(re_, [0], [c.bb for c in inner_eq]) is None
     ck.verdict(ok, C, "T6-provenance", re_, "RegistrationToken==is-TokenInner==", "RegistrationToken equality is the equality of the whole inner token", "RegistrationToken equality is not the equality of its whole inner token (e.g. the slot index only): the token of a removed source equals the token of the source that reuses its slot, so bookkeeping keyed by == (the lifecycle set) confuses the two", site=re_.where())
+
+
+def _tok_fields(facts):
+    adt = facts.adts.get("token::TokenInner") or {}
+    return [fl["name"] for v in adt.get("variants", []) for fl in v.get("fields", [])]
+
+
+def exhaustive_increment_version(facts, body):
+    """"" if body maps (id, v, s) to (id, (v + 1) mod 2^16, 0) for every 16-bit v (ids / sub-ids at their boundaries),
+    a description of the first counterexample otherwise, None if the function cannot be evaluated"""
+    import sys, os
+
+    sys.path.insert(0, os.path.join(os.path.dirname(__file__), "..", "..", "bits"))
+    import concrete as CE
+
+    names = _tok_fields(facts)
+    if sorted(names) != ["id", "sub_id", "version"]:
+        return None
+    ix = {n: i for i, n in enumerate(names)}
+    m = CE.Machine(facts)
+
+    def mk(i, v, s):
+        vals = [0, 0, 0]
+        vals[ix["id"]], vals[ix["version"]], vals[ix["sub_id"]] = i, v, s
+        return ("struct", vals)
+
+    try:
+        for v in range(65536):
+            samples = [(7, 3)] if 2 < v < 65533 else [(0, 0), (7, 3), (0xFFFFFFFF, 0xFFFF), (0x7FFFFFFF, 1)]
+            for i, s_ in samples:
+                try:
+                    r = m.run(body, [mk(i, v, s_)])
+                except CE.Panic as e:
+                    return "panics for (id=%d, version=%d, sub_id=%d): %s" % (i, v, s_, e)
+                want = mk(i, (v + 1) & 0xFFFF, 0)
+                if r != want:
+                    return "(id=%d, version=%d, sub_id=%d) -> %s, expected %s" % (i, v, s_, r, want)
+    except CE.Unsupported:
+        return None
+    return ""
+
+
+def exhaustive_increment_sub_id(facts, body):
+    import sys, os
+
+    sys.path.insert(0, os.path.join(os.path.dirname(__file__), "..", "..", "bits"))
+    import concrete as CE
+
+    names = _tok_fields(facts)
+    if sorted(names) != ["id", "sub_id", "version"]:
+        return None
+    ix = {n: i for i, n in enumerate(names)}
+    m = CE.Machine(facts)
+
+    def mk(i, v, s):
+        vals = [0, 0, 0]
+        vals[ix["id"]], vals[ix["version"]], vals[ix["sub_id"]] = i, v, s
+        return ("struct", vals)
+
+    try:
+        for s_ in range(65536):
+            for i, v in ([(7, 3)] if 2 < s_ < 65533 else [(0, 0), (7, 3), (0xFFFFFFFF, 0xFFFF)]):
+                try:
+                    r = m.run(body, [mk(i, v, s_)])
+                    if s_ == 0xFFFF:
+                        return "sub_id 65535 does not panic: returns %s (the sub-id wraps or is reused silently)" % (r,)
+                    if r != mk(i, v, s_ + 1):
+                        return "(id=%d, version=%d, sub_id=%d) -> %s, expected %s" % (i, v, s_, r, mk(i, v, s_ + 1))
+                except CE.Panic:
+                    if s_ != 0xFFFF:
+                        return "panics for sub_id=%d (below the limit)" % s_
+    except CE.Unsupported:
+        return None
+    return ""
+
+
+def semantic_token_equality(facts, body, fields):
+    """"" if the equality function answers `true` exactly for the all-fields-equal pattern, on every one of the 2^n
+    equal/different patterns of the fields (several base values; a differing field differs in its lowest or in its
+    highest bit), a counterexample otherwise. Only attempted when integers flow into nothing but `==` / `!=` in the
+    function (then its answer is a function of the pattern); None = not evaluable, the structural verdict stands"""
+    import sys, os, itertools
+
+    sys.path.insert(0, os.path.join(os.path.dirname(__file__), "..", "..", "bits"))
+    import concrete as CE
+
+    # fragment: no integer arithmetic / masking in the function or the local functions it calls
+    seen, work = set(), [body]
+    while work:
+        b_ = work.pop()
+        if b_.key in seen:
+            continue
+        seen.add(b_.key)
+        for i_, j_, st in b_.statements():
+            if st["s"] == "assign" and st["rv"]["r"] == "bin" and st["rv"]["op"] not in ("Eq", "Ne"):
+                o = st["rv"]["a"]
+                pl = o.get("c") or o.get("m")
+                ty = pl["t"] if pl is not None else (o.get("k") or {}).get("ty")
+                if ty is None or facts.types[ty]["s"] != "bool":
+                    return None
+            if st["s"] == "assign" and st["rv"]["r"] == "cast":
+                return None
+        for cs in b_.calls():
+            cb = cs.callee_body()
+            if cb is not None:
+                work.append(cb)
+    m = CE.Machine(facts)
+    n = len(fields)
+    if not 1 <= n <= 4:
+        return None
+    widths = []
+    adt = facts.adts.get("token::TokenInner") or {}
+    for v in adt.get("variants", []):
+        for fl in v.get("fields", []):
+            it = CE._int_ty(facts.types[fl["ty"]]["s"]) if fl.get("ty") is not None else None
+            widths.append(it[0] if it else 16)
+    if len(widths) != n:
+        widths = [16] * n
+    try:
+        for a in ([5, 9, 3, 11][:n], [0] * n, [(1 << min(widths)) - 1] * n):
+            for pat in itertools.product((False, True), repeat=n):
+                for hi in (False, True):
+                    b = [x ^ ((1 << (widths[i] - 1)) if hi else 1) if pat[i] else x for i, x in enumerate(a)]
+                    want = int(not any(pat))
+                    for l, r in ((a, b), (b, a)):
+                        if m.run(body, [("struct", list(l)), ("struct", list(r))]) != want:
+                            diff = [fields[i] for i in range(n) if pat[i]]
+                            return ("tokens that differ only in %s compare equal" % diff) if diff else ("%s is not equal to itself" % dict(zip(fields, a)))
+    except (CE.Unsupported, CE.Panic):
+        return None
+    return ""
